@@ -3,9 +3,12 @@
 P = {
     "id": "C03",
     "claimed": False,  # flip to True once bin/check is green AND Properties/C03.v has real theorems
-    "coq_targets": ["Run/Eval_C03.vo"],
-    "theorems_module": "Run.Eval_C03",
-    "theorems": [],
+    "coq_targets": ["Properties/C03.vo", "Run/Eval_C03.vo"],
+    "theorems_module": "Properties.C03",
+    "theorems": ["C03_method_list_semantics", "C03_method_list_rejected", "C03_hosts_any", "C03_decode_per_setting",
+                 "C03_route_matches_iff", "C03_captures_exact", "C03_unnamed_not_exposed",
+                 "C03_F1_refuted", "C03_F2_refuted", "C03_F3_refuted", "C03_F4_refuted", "C03_F5_refuted",
+                 "C03_F5_panic_refuted", "C03_F6_refuted", "C03_F7_refuted", "C03_F8_refuted", "C03_nonvacuous"],
     "streams": [{
         "name": "routes", "pkg": "./internal/rules", "test": "TestVerifC03",
         "overlay": {"internal/rules/zz_verif_c03_test.go": "c03/c03_test.go"},
